@@ -92,7 +92,14 @@ pub fn use_gcd_arithmetic<T: NumberLike>(prefixes: &[Prefix<T>]) -> bool {
 }
 
 pub fn gcd_bits_required<U: UnsignedLike>(range: U) -> usize {
-  range.to_f64().log2().ceil() as usize
+  // ceil(log2(range)) in exact integer arithmetic: the smallest number of bits
+  // that can hold gcd - 1 for any gcd <= range. (f64 log2 rounds down for
+  // ranges just above a power of 2, losing the top bit of gcd - 1.)
+  let mut bits = 0;
+  while bits < U::BITS && (U::ONE << bits) < range {
+    bits += 1;
+  }
+  bits
 }
 
 // to store gcd, we write and read gcd - 1 in the minimum number of bits
